@@ -845,7 +845,8 @@ fn to_ascii_digits(s: &str) -> String {
 
 fn pipeline_case(sink: &mut Sink, dict: &JapaneseDictionary, pre: &str, num: &str, post: &str, expected: Option<&str>, must_not_join: bool, tag: &str, verbose: bool) {
     let text = format!("{}{}{}", pre, num, post);
-    let d = json!({"kind": "pipeline", "pre": pre, "num": num, "post": post, "expected": expected, "must_not_join": must_not_join, "tag": tag});
+    let d = json!({"kind": "pipeline", "pre": pre, "num": num, "post": post, "expected": expected, "must_not_join": must_not_join, "tag": tag,
+                   "enableNormalize": if key_absent() { "absent" } else { "true" }});
     let toks = match tokenize(dict, &text) {
         Ok(t) => t,
         Err(e) => {
@@ -862,7 +863,7 @@ fn pipeline_case(sink: &mut Sink, dict: &JapaneseDictionary, pre: &str, num: &st
     let (b, e) = (pre.len(), pre.len() + num.len());
     let inside: Vec<&Tok> = toks.iter().filter(|t| t.begin >= b && t.end <= e).collect();
     let covered: usize = inside.iter().map(|t| t.end - t.begin).sum();
-    sink.tag(&format!("pipeline:{}", tag));
+    sink.tag(&format!("pipeline:{}{}", tag, if key_absent() { "/enableNormalize_absent" } else { "" }));
     // Coq side: every token inside the numeral is either an untouched dictionary token (normalised form = surface after
     // NFKC) or its normalised form is what the model parser computes for its surface; for a well-formed numeral there is
     // exactly one token and its normalised form is the expected rendering
@@ -1339,6 +1340,19 @@ pub fn numeric_dict(work: &Path) -> JapaneseDictionary {
     load_dict(&dic, &res, json!([{"class": "com.worksap.nlp.sudachi.JoinNumericPlugin", "enableNormalize": true}]))
 }
 
+/// the same dictionary, JoinNumericPlugin configured WITHOUT the key enableNormalize: the documented default is true, so
+/// everything expected of `numeric_dict` is expected of this one
+pub fn numeric_dict_absent(work: &Path) -> JapaneseDictionary {
+    let dic = compile_system(EXTRA_ROWS);
+    let res = resource_dir(work, "res_c15", "resources/char.def");
+    load_dict(&dic, &res, json!([{"class": "com.worksap.nlp.sudachi.JoinNumericPlugin"}]))
+}
+/// set while the cases run on `numeric_dict_absent` (recorded in the case descriptions, read back by --replay)
+static KEY_ABSENT: std::sync::atomic::AtomicBool = std::sync::atomic::AtomicBool::new(false);
+fn key_absent() -> bool {
+    KEY_ABSENT.load(std::sync::atomic::Ordering::Relaxed)
+}
+
 /// the same dictionary without any path-rewrite plugin
 pub fn plain_dict(work: &Path) -> JapaneseDictionary {
     let dic = compile_system(EXTRA_ROWS);
@@ -1357,6 +1371,7 @@ pub fn run(args: &Args) {
             let line = CliLine { pre: c["pre"].as_str().unwrap().into(), num: c["num"].as_str().unwrap().into(), post: c["post"].as_str().unwrap().into(),
                                  expected: c["expected"].as_str().unwrap().into(), tag: "replay" };
             let flags: Vec<String> = c["flags"].as_array().map(|a| a.iter().map(|x| x.as_str().unwrap().to_string()).collect()).unwrap_or_default();
+            KEY_ABSENT.store(c["enableNormalize"] == "absent", std::sync::atomic::Ordering::Relaxed);
             cli_run(&mut sink, args, &[line], &flags, true);
             sink.finish();
             return;
@@ -1398,7 +1413,9 @@ pub fn run(args: &Args) {
         if c["kind"] == "parse" {
             parse_case(&mut sink, c["input"].as_str().unwrap(), c["expected"].as_str(), want, "replay", true);
         } else {
-            let dict = numeric_dict(&args.work);
+            let absent = c["enableNormalize"] == "absent";
+            KEY_ABSENT.store(absent, std::sync::atomic::Ordering::Relaxed);
+            let dict = if absent { numeric_dict_absent(&args.work) } else { numeric_dict(&args.work) };
             pipeline_case(&mut sink, &dict, c["pre"].as_str().unwrap(), c["num"].as_str().unwrap(), c["post"].as_str().unwrap(), c["expected"].as_str(),
                           c["must_not_join"].as_bool().unwrap_or(false), "replay", true);
         }
@@ -1458,6 +1475,25 @@ pub fn run(args: &Args) {
     }
     for (t, _) in DIRECTED_BAD.iter() {
         pipeline_case(&mut sink, &dict, "", t, "円", None, true, "directed_bad", false);
+    }
+    // the same with the key enableNormalize ABSENT from the plugin's settings (third value next to true / false): directed
+    // numerals first, then numerals generated from values
+    {
+        let absent = numeric_dict_absent(&args.work);
+        KEY_ABSENT.store(true, std::sync::atomic::Ordering::Relaxed);
+        for (t, e) in DIRECTED_OK.iter() {
+            pipeline_case(&mut sink, &absent, "京都", t, "円", Some(e), false, "directed_ok", false);
+        }
+        for _ in 0..args.n(120, 2000) {
+            let n = gen_wellformed(&mut rng);
+            if n.text.contains("六三四") || n.text.chars().count() > 200 {
+                continue;
+            }
+            let pre = *rng.pick(&pres);
+            let post = *rng.pick(&posts);
+            pipeline_case(&mut sink, &absent, pre, &n.text, post, Some(&n.expected), false, n.tag, false);
+        }
+        KEY_ABSENT.store(false, std::sync::atomic::Ordering::Relaxed);
     }
     // minimised past failure (fixed in the repository): malformed in itself AND a trailing separator
     for t in ["十55,", "9十五522二三.", "十55.", "百1234,"] {
@@ -1571,7 +1607,7 @@ const CLI_DIRECTED: [(&str, &str, &str, &str); 22] = [
     ("", "2,000,000", "円", "2000000"), ("", "２，０００，０００", "円", "2000000"), ("京都に", "1.5", "", "1.5"),
 ];
 
-fn cli_setup(args: &Args) -> Result<(String, PathBuf, PathBuf), String> {
+fn cli_setup(args: &Args, absent: bool) -> Result<(String, PathBuf, PathBuf), String> {
     let cli = std::env::var("VERIF_CLI_BIN").unwrap_or_default();
     if cli.is_empty() || !Path::new(&cli).exists() {
         return Err("the command-line tool is not available (pre_build step py_cli did not run; VERIF_CLI_BIN)".into());
@@ -1586,17 +1622,20 @@ fn cli_setup(args: &Args) -> Result<(String, PathBuf, PathBuf), String> {
         "inputTextPlugin": [{"class": "com.worksap.nlp.sudachi.DefaultInputTextPlugin"}],
         "oovProviderPlugin": [{"class": "com.worksap.nlp.sudachi.SimpleOovPlugin",
                                "oovPOS": ["名詞", "普通名詞", "一般", "*", "*", "*"], "leftId": 8, "rightId": 8, "cost": 6000}],
-        "pathRewritePlugin": [{"class": "com.worksap.nlp.sudachi.JoinNumericPlugin", "enableNormalize": true}],
+        "pathRewritePlugin": [if absent { json!({"class": "com.worksap.nlp.sudachi.JoinNumericPlugin"}) }
+                              else { json!({"class": "com.worksap.nlp.sudachi.JoinNumericPlugin", "enableNormalize": true}) }],
     });
-    let cfgp = dir.join("sudachi.json");
+    let cfgp = dir.join(if absent { "sudachi-default.json" } else { "sudachi.json" });
     std::fs::write(&cfgp, serde_json::to_string_pretty(&cfg).unwrap()).map_err(|e| e.to_string())?;
     Ok((cli, cfgp, res))
 }
 
 /// one run of the tool over a file with one case per line
 fn cli_run(sink: &mut Sink, args: &Args, lines: &[CliLine], flags: &[String], verbose: bool) {
-    let desc = |l: &CliLine| json!({"kind": "cli", "pre": l.pre, "num": l.num, "post": l.post, "expected": l.expected, "flags": flags, "tag": l.tag});
-    let (cli, cfgp, res) = match cli_setup(args) {
+    let absent = key_absent();
+    let desc = |l: &CliLine| json!({"kind": "cli", "pre": l.pre, "num": l.num, "post": l.post, "expected": l.expected, "flags": flags, "tag": l.tag,
+                                    "enableNormalize": if absent { "absent" } else { "true" }});
+    let (cli, cfgp, res) = match cli_setup(args, absent) {
         Ok(x) => x,
         Err(e) => {
             let id = sink.case_rust_only(json!({"kind": "cli", "pre": "", "num": "", "post": "", "expected": "", "flags": flags}), false);
@@ -1697,4 +1736,8 @@ fn cli_section(sink: &mut Sink, rng: &mut Rng, args: &Args) {
     cli_run(sink, args, &lines, &[], false);
     let some: Vec<CliLine> = lines.into_iter().step_by(3).collect();
     cli_run(sink, args, &some, &["-a".to_string()], false);
+    // ... and with a settings file whose JoinNumericPlugin entry has no enableNormalize key
+    KEY_ABSENT.store(true, std::sync::atomic::Ordering::Relaxed);
+    cli_run(sink, args, &some, &[], false);
+    KEY_ABSENT.store(false, std::sync::atomic::Ordering::Relaxed);
 }
